@@ -1,6 +1,7 @@
 """C03 — async neutrality: sync and async arguments are interchangeable."""
 import inspect
 import itertools
+import json
 
 import s1
 import tools
@@ -262,6 +263,7 @@ def cases(tier, rng):
     yield {"tool": "__all__", "family": "types", "srcs": [], "params": {}}
     yield from _special_cases()
     yield from _awaitify_cases(tier)
+    yield from _reuse_cases()
     yield from _groupby_cases(tier)
     yield from _exitstack_cases(tier)
     n = 0
@@ -332,7 +334,64 @@ def _types_check():
                                                                               "contextmanager", "ContextDecorator")]}
 
 
+def _reuse_cases():
+    """ONE function object handed to two SEPARATE tool calls; between the calls the function's answers change flavour
+    (a forwarding `def` whose backend is swapped from a plain to an `async def` implementation, or back)"""
+    for tool in ("map", "filter", "sorted", "min", "reduce", "groupby", "takewhile", "accumulate"):
+        for order in (("plain", "aw"), ("aw", "plain"), ("plain", "aw", "plain")):
+            yield {"tool": tool, "family": "reuse", "order": list(order), "srcs": [], "params": {}}
+
+
+def _observe_reuse(case):
+    from world import drive, exc_name
+    A = asyncstdlib
+    mode = {"m": "plain"}
+
+    async def _aw(v):
+        return v
+
+    def base(tool, *args):
+        if tool == "reduce" or tool == "accumulate":
+            return args[0] + args[1]
+        if tool in ("filter", "takewhile"):
+            return args[0] < 3
+        if tool == "groupby":
+            return args[0] // 2
+        return -args[0]
+
+    def f(*args):                      # the very same function object in every call
+        v = base(case["tool"], *args)
+        return v if mode["m"] == "plain" else _aw(v)
+    data = [1, 3, 2, 4]
+
+    async def one():
+        t = case["tool"]
+        if t == "map":
+            return await A.list(A.map(f, data))
+        if t == "filter":
+            return await A.list(A.filter(f, data))
+        if t == "takewhile":
+            return await A.list(A.takewhile(f, data))
+        if t == "accumulate":
+            return await A.list(A.accumulate(data, f))
+        if t == "sorted":
+            return await A.sorted(data, key=f)
+        if t == "min":
+            return await A.min(data, key=f)
+        if t == "reduce":
+            return await A.reduce(f, data)
+        return [(k, await A.list(g)) async for k, g in A.groupby(data, key=f)]
+    outs = []
+    for m in case["order"]:
+        mode["m"] = m
+        r = drive(one())
+        outs.append(["ok", repr(r.value)] if r.exc is None else ["exc", exc_name(r.exc)])
+    return {"outs": outs, "async": {"out": ["returned", ["n"]], "vis": [["yield", ["i", 1]]]}}
+
+
 def observe(case):
+    if case.get("family") == "reuse":
+        return _observe_reuse(case)
     if case.get("family") == "awaitify":
         out = _run_awaitify(case)
         return {"out": out, "async": {"out": ["returned", ["n"]], "vis": [["yield", ["i", 1]]]}}
@@ -370,13 +429,18 @@ def model_request(case):
         # for Awaitify a class with awaitable instances is "a callable returning an awaitable" (like obj), a bound async
         # method is a coroutine function (like async def)
         return {"m": "awaitify", "flavour": {"cls": "obj", "bound": "async", "wrapsdef": "def"}.get(case["flavour"], case["flavour"]), "behs": case["behs"]}
-    if case.get("family") in ("types", "groupby", "exitstack", "special") or case["tool"] in s1.NO_MODEL:
+    if case.get("family") in ("types", "groupby", "exitstack", "special", "reuse") or case["tool"] in s1.NO_MODEL:
         return None
     return tools.model_request(case)
 
 
 def judge(case, obs, model):
     issues = []
+    if case.get("family") == "reuse":
+        if len({json.dumps(o) for o in obs["outs"]}) != 1 or obs["outs"][0][0] != "ok":
+            issues.append(Issue("oracle", {"outs": obs["outs"], "order": case["order"]},
+                                "result-depends-on-the-flavour-of-an-earlier-call:" + case["tool"]))
+        return issues
     if case.get("family") == "awaitify":
         want = [["val", b[1]] if b[0] == "ok" else ["exc", b[1]] for b in case["behs"]]
         if obs["out"] != want:
@@ -411,11 +475,13 @@ def features(case, obs):
         return ["tool=" + case["tool"], "variants=%d" % obs["variants"]]
     if case.get("family") == "awaitify":
         return ["tool=awaitify", "flavour=" + case["flavour"]]
+    if case.get("family") == "reuse":
+        return ["tool=" + case["tool"], "reuse:" + "-".join(case["order"])]
     return ["tool=" + case["tool"], "variants=%d" % obs["variants"], "faulty" if case.get("faulty") else "fault-free"]
 
 
 def nontrivial(case, obs):
-    return case.get("family") in ("types", "groupby", "awaitify", "exitstack") or bool(obs["base"][0]) or obs["base"][1][0] in ("returned", "raised")
+    return case.get("family") in ("types", "groupby", "awaitify", "exitstack", "reuse") or bool(obs["base"][0]) or obs["base"][1][0] in ("returned", "raised")
 
 
 def search_cases(broken, rng):
